@@ -448,6 +448,7 @@ func c11trickle(r *core.Run) {
 		b := []byte(string(rn))
 		maxGap := time.Duration(0)
 		last := time.Now()
+		mark := lagMark()
 		for i := range b {
 			if i > 0 {
 				time.Sleep(20 * time.Millisecond)
@@ -465,7 +466,7 @@ func c11trickle(r *core.Run) {
 		switch {
 		case !ok:
 			r.Case("")
-		case maxGap > 40*time.Millisecond:
+		case maxGap > 40*time.Millisecond || lagged(mark):
 			r.Count("trickle_rounds_with_compromised_timing", 1)
 			r.Case("")
 		default:
